@@ -50,6 +50,28 @@ Definition go_load_opt (v : gval) : option gval :=
   match v with Codec.VPtr o => o | _ => None end.
 Definition go_store_opt (v : gval) (x : gval) : gval := Codec.VPtr (Some x).
 
+(** the backing array of a slice is the [VSlice] of its elements;
+    [uintptr(data) + uintptr(i)*EltSize] is the address of element i (an index
+    outside the array is a fault here; Go would read or write foreign memory).
+    [go_nilptr] is the nil pointer some Size calls pass to a codec that does not
+    look at it (the width of a fixed-size element). *)
+Definition go_elem (site : string) (data : gval) (i : Z) : res gval :=
+  go_nth site (Codec.slice_elems data) i.
+Definition go_set_elem (site : string) (data : gval) (i : Z) (x : gval) : res gval :=
+  match go_set_nth site (Codec.slice_elems data) i x with
+  | Ok l => Ok (Codec.VSlice l) | Err => Err | Panic s => Panic s | Hang s => Hang s | Blowup s => Blowup s
+  end.
+Definition go_nilptr : gval := Codec.VSkip 0.
+(** reflect.typedslicecopy: the first n elements of src over those of dst (n = the smaller of the two lengths) *)
+Definition go_copy_elems (dst src : gval) (n : Z) : gval :=
+  Codec.VSlice (firstn (Z.to_nat n) (Codec.slice_elems src) ++ skipn (Z.to_nat n) (Codec.slice_elems dst)).
+(** reflect.unsafe_NewArray(elemType, n): a new array of n zero elements (the
+    element type travels as its zero value); a negative n panics *)
+Definition go_new_array (zero : gval) (n : Z) : gval := Codec.VSlice (repeat zero (Z.to_nat n)).
+(** a / b on int with a computed divisor: division by zero panics; Go truncates *)
+Definition go_sdiv (site : string) (w : N) (a b : Z) : res Z :=
+  if (b =? 0)%Z then Panic site else Ok (sdiv w a b).
+
 (** x[a:b] : Go allows b up to cap(x); as for [go_slice_to] the model is
     stricter and panics unless 0 <= a <= b <= len(x) *)
 Definition go_slice_both {A} (site : string) (l : list A) (a b : Z) : res (list A) :=
